@@ -109,6 +109,46 @@ def run_cpu_equivalence(ctx, h) -> Dict[str, Any]:
             "max_instructions": nmax, "slices": SLICES, "distinct_outcomes": sum(r["outcomes"] for r in res)}
 
 
+def _shard_split(args):
+    """CoreRuntime::step(N) in one call vs every split step(a)+step(N-a) vs N single steps (used by C07: executing N+M
+    instructions in one run equals two runs)."""
+    cs, nmax, prefix = args
+    h = rb.harness()
+    vb = VB()
+    runs = 0
+    for (p, hn, imr, timer, pe) in cs:
+        cfg = c12.make_cfg(p, hn, imr, timer)
+        pre = list(PRE_EVENTS[pe])
+        variants = []
+        for n in range(1, nmax + 1):
+            variants.append((n, f"step({n})", [("step", n)]))
+            for a in range(1, n):
+                variants.append((n, f"step({a})+step({n - a})", [("step", a), ("step", n - a)]))
+        reqs = [M.rs_req(cfg, pre + [("step", 1)] * n, obs_each=False) for n in range(0, nmax + 1)]
+        reqs += [M.rs_req(cfg, pre + ev, obs_each=False) for (_, _, ev) in variants]
+        resp = h.batch(reqs)
+        ref = {n: M.rs_unpack(resp[n])[-1] for n in range(0, nmax + 1)}
+        for k, (n, name, ev) in enumerate(variants):
+            got = M.rs_unpack(resp[nmax + 1 + k])[-1]
+            runs += 1
+            d = diff(ref[n], got)
+            if d:
+                vb.add(f"{prefix}/{p}/{'+'.join(sorted(set(x.split('[')[0] for x in d)))[:60]}",
+                       f"{p}|{hn}|imr={imr:02x}|t={timer}|pre={pre}: {name} differs from {n} x step(1) in {d[:6]} "
+                       f"(PC {got['regs'].get('PC')} vs {ref[n]['regs'].get('PC')})",
+                       {"cpu": True, "split": True, "cfg": [p, hn, imr, list(timer), pe], "n": n, "events": [list(e) for e in ev]})
+    return {"vb": vb, "runs": runs}
+
+
+def run_step_split(ctx, prefix: str) -> Dict[str, Any]:
+    cs = combos(ctx.thorough)
+    nmax = 8 if not ctx.thorough else 12
+    res = pmap(_shard_split, [(c, nmax, prefix) for c in chunks(cs, nproc() * 2)])
+    for r in res:
+        ctx.merge_bucket(r["vb"])
+    return {"configs": len(cs), "max_instructions": nmax, "runs": sum(r["runs"] for r in res)}
+
+
 def replay(w) -> Optional[str]:
     p, hn, imr, timer, pe = w["cfg"]
     cfg = c12.make_cfg(p, hn, imr, tuple(timer))
